@@ -62,7 +62,7 @@ def plan(tier, seed):
                 cases.append(dict(d, kind="saveload"))
     groups = [cases[k:k + 25] for k in range(0, len(cases), 25)]
     fl = []
-    for name in ("NaCl", "wurtzite", "tri3", "rhomb", "hcp", "Cr-col"):
+    for name in ("NaCl", "wurtzite", "tri3", "rhomb", "hcp", "Cr-col", "trigP3"):
         for what in ("FORCE_SETS-1", "FORCE_SETS-2", "FORCE_CONSTANTS", "fc-hdf5", "BORN", "type-conversion"):
             for scale in (1.0, 1e-7, 1e5):
                 fl.append({"kind": "file", "cell": name, "what": what, "scale": scale})
@@ -88,6 +88,8 @@ def make_cell(name):
         return phx.X.to_phonopy(phx.xtal("tri-P1-3")), "tri-P1-3"
     if name == "rhomb":
         return phx.X.to_phonopy(phx.xtal("rhomb-prim-2")), "rhomb-prim-2"
+    if name == "trigP3":
+        return phx.X.to_phonopy(phx.xtal("trig-P3-4")), "trig-P3-4"
     if name == "hcp":
         return phx.X.to_phonopy(phx.xtal("hcp-2")), None
     if name.startswith("Cr"):
@@ -313,7 +315,7 @@ def run_file(case, seed):
     from phonopy.structure.dataset import get_displacements_and_forces
 
     nontriv = True
-    base = {"cell": case["cell"], "S": "211" if case["cell"] in ("wurtzite", "tri3") else "222", "dataset": "type1", "fc": "full", "nac": "born", "scale": case["scale"]}
+    base = {"cell": case["cell"], "S": "211" if case["cell"] in ("wurtzite", "tri3", "trigP3") else "222", "dataset": "type1", "fc": "full", "nac": "born", "scale": case["scale"]}
 
     def fail(kind, msg):
         return dict(ok=False, sig="C16/file/%s/%s" % (case["what"], kind), nontrivial=True, msg="%s scale=%g: %s" % (case["cell"], case["scale"], msg))
